@@ -358,6 +358,49 @@ fn skip_pow(tier: Tier, shard: usize, n: usize) -> Report {
 	rep
 }
 
+/// A fork that leaves the main chain more than 50 blocks below the head (the chain treats *known* blocks that far
+/// down as old; an unknown one is a fork block like any other): main chain p1..p54 delivered first, then the
+/// fork's blocks and headers in every order. Two instances: the fork overtakes with its second block / with its first.
+fn deep_tree(sc: &uni::Scratch, d3: u64, d4: u64) -> (Tree, usize, usize) {
+	let mut tb = TreeBuilder::new(sc, 7, true);
+	let mut prev = None;
+	let mut p2 = None;
+	for i in 1..=54usize {
+		prev = Some(tb.add_with_difficulty(&format!("p{}", i), prev, &uni::BlockSpec::empty(200 + i as u32), 1));
+		if i == 2 {
+			p2 = prev;
+		}
+	}
+	let f3 = tb.add_with_difficulty(&format!("f3d{}", d3), p2, &uni::BlockSpec::empty(10), d3);
+	let f4 = tb.add_with_difficulty(&format!("f4d{}", d4), Some(f3), &uni::BlockSpec::empty(11), d4);
+	(tb.finish(), f3, f4)
+}
+
+fn deep(_tier: Tier, shard: usize, n: usize) -> Report {
+	uni::init_thread();
+	let mut rep = Report::new();
+	let sc = uni::Scratch::new("c03d");
+	for (k, (d3, d4)) in [(1u64, 60u64), (60, 1)].iter().enumerate() {
+		if !mine(k as u64, shard, n) {
+			continue;
+		}
+		let (tree, f3, f4) = deep_tree(&sc, *d3, *d4);
+		let inst = format!("deep-fork:{}-{}", d3, d4);
+		let twin = twin_fp(&sc, &tree, Options::SKIP_POW);
+		let mut inv = Inv03 { inst: inst.clone(), twin, finals: BTreeSet::new() };
+		let is_main = |i: usize| tree.blocks[i].name.starts_with('p');
+		let prelude: Vec<Ev> = (0..tree.blocks.len()).filter(|i| is_main(*i)).map(Ev::B).collect();
+		let mut ex = Explorer::with_prelude(&tree, &sc, Options::SKIP_POW, &inst, &prelude);
+		let evs = vec![Ev::B(f3), Ev::B(f4), Ev::H(f3), Ev::HS(f4), Ev::B(f4)];
+		ex.explore(&evs, &mut inv, &mut rep);
+		if inv.finals.len() > 1 {
+			rep.violation("quiescence:order-dependent", format!("{} distinct final best-chain states over the delivery orders of one universe", inv.finals.len()), json!({"instance": inst}));
+		}
+		let _ = std::fs::remove_dir_all(&ex.base);
+	}
+	rep
+}
+
 /// real-PoW universe: main chain of 3 + fork of 3 from block 1 with larger timestamps gaps,
 /// header-first deliveries included
 fn real_pow(tier: Tier, shard: usize, n: usize) -> Report {
@@ -416,12 +459,13 @@ impl Engine for C03 {
 		}
 	}
 	fn parts(&self, _tier: Tier) -> Vec<(&'static str, usize)> {
-		vec![("skip_pow", 16), ("real_pow", 16)]
+		vec![("skip_pow", 16), ("real_pow", 16), ("deep", 2)]
 	}
 	fn run_part(&self, part: &str, tier: Tier, shard: usize, n: usize) -> Report {
 		match part {
 			"skip_pow" => skip_pow(tier, shard, n),
 			"real_pow" => real_pow(tier, shard, n),
+			"deep" => deep(tier, shard, n),
 			_ => panic!("unknown part"),
 		}
 	}
@@ -450,6 +494,12 @@ pub fn replay_history(case: &Value) -> Result<String, String> {
 		let shape = all.iter().find(|s| canon(s, None) == c).ok_or("unknown instance")?;
 		let tree = build_tree_lifted(&sc, shape, 12);
 		let mut evs: Vec<Value> = (1..=12).map(|i| json!(format!("B(p{})", i))).collect();
+		evs.extend(case["events"].as_array().cloned().unwrap_or_default());
+		return crate::chainx::replay_events(&tree, &json!({"events": evs}), Options::SKIP_POW, &sc);
+	} else if let Some(c) = inst.strip_prefix("deep-fork:") {
+		let mut it = c.split('-').filter_map(|x| x.parse::<u64>().ok());
+		let (tree, _, _) = deep_tree(&sc, it.next().unwrap_or(1), it.next().unwrap_or(60));
+		let mut evs: Vec<Value> = (1..=54).map(|i| json!(format!("B(p{})", i))).collect();
 		evs.extend(case["events"].as_array().cloned().unwrap_or_default());
 		return crate::chainx::replay_events(&tree, &json!({"events": evs}), Options::SKIP_POW, &sc);
 	} else {
